@@ -424,7 +424,9 @@ func (c *Cluster) WaitStable(bound, every time.Duration) (time.Duration, error) 
 		why = w
 		time.Sleep(every)
 	}
-	return c.K.Now() - start, fmt.Errorf("not stable after %v: %s", bound, why)
+	// member-to-member RESP connections opened during the last 10 simulated seconds (see RecentDials)
+	storm := c.N.RecentDials(c.K.Now()-10*time.Second, 256)
+	return c.K.Now() - start, fmt.Errorf("not stable after %v: %s; member_dials_last_10s=%d", bound, why, storm)
 }
 
 // stampWriter prefixes every log line with the simulated time (debugging aid).
